@@ -186,7 +186,11 @@ func (g *gen) draw(op string, parent *Step) (Step, bool) {
 
 	case OpEvent:
 		ps := g.periodsWhere(sourceLive)
+		if len(ps) == 0 && !g.pct(25, "lateEvent") {
+			return Step{}, false
+		}
 		if len(ps) == 0 || g.pct(8, "deadTarget") {
+			// a source that keeps emitting after its trigger ended
 			ps = g.periodsWhere(func(p *MPeriod) bool { return p.HasUpdater && !p.Terminal })
 		}
 		if len(ps) == 0 {
